@@ -428,6 +428,37 @@ func readOnlyFileClose(com *ssa.CallCommon) bool {
 				}
 				return all && n > 0
 			}
+			if fa, isfa := x.X.(*ssa.FieldAddr); isfa && x.Op == token.MUL {
+				// a file kept in a struct field: every store to that field (anywhere in its package) is a read-only file
+				key := relTypeString(fa.X.Type()) + "." + fieldName(fa.X.Type(), fa.Field)
+				n, all := 0, true
+				if pkg := x.Parent().Pkg; pkg != nil {
+					for _, m := range pkg.Members {
+						mf, isFn := m.(*ssa.Function)
+						if !isFn {
+							continue
+						}
+						fns := append([]*ssa.Function{mf}, mf.AnonFuncs...)
+						for _, f := range fns {
+							allInstrs(f, func(in ssa.Instruction) {
+								st, isSt := in.(*ssa.Store)
+								if !isSt {
+									return
+								}
+								sfa, isF := st.Addr.(*ssa.FieldAddr)
+								if !isF || relTypeString(sfa.X.Type())+"."+fieldName(sfa.X.Type(), sfa.Field) != key {
+									return
+								}
+								n++
+								if !ok(st.Val, d-1) {
+									all = false
+								}
+							})
+						}
+					}
+				}
+				return all && n > 0
+			}
 			if fv, isf := x.X.(*ssa.FreeVar); isf && x.Op == token.MUL {
 				sts := cellStores(rootCell(fv))
 				for _, st := range sts {
